@@ -2,8 +2,10 @@
 package props
 
 import (
+	_ "verif/mc/props/c02"
 	_ "verif/mc/props/c10"
 	_ "verif/mc/props/c14"
 	_ "verif/mc/props/c15"
+	_ "verif/mc/props/c16"
 	_ "verif/mc/props/c20"
 )
